@@ -374,9 +374,38 @@ def comprehension(eng, st, e, kind):
         res = eng.fresh(KList(elt.kind), 'comp')
         lo = ListOps(res.kind)
         eng.fact(st, lo.len(res.term) == z3.If(n > 0, n, 0))
-        eng.fact(st, Vm.forall([j], z3.Implies(z3.And(j >= 0, j < n, s2.path), lo.at(res.term, j) == elt.term),
-                               patterns=[lo.at(res.term, j)]))
+        body_ = z3.Implies(z3.And(j >= 0, j < n, s2.path), lo.at(res.term, j) == elt.term)
+        eng.fact(st, Vm.forall([j], body_, patterns=[lo.at(res.term, j)]))
+        try:
+            src = at(j)
+            for p in _source_patterns(j, src.term):
+                eng.fact(st, Vm.forall([j], body_, patterns=[p]))
+        except Exception:      # noqa
+            pass
         return res
+    if (kind == 'dict' and len(gens) == 1 and not gens[0].ifs and isinstance(gens[0].target, ast.Name)
+            and isinstance(e.key, ast.Name) and e.key.id == gens[0].target.id):
+        # {k: f(k) for k in d}: same keys in the same order, values given by a pure expression of the key
+        it = eng.eval(gens[0].iter, st)
+        if isinstance(it.kind, KDict):
+            dk = it.kind
+            di = DictOps(dk)
+            kc = eng.fresh(dk.key, 'ck')
+            s2 = st.copy()
+            s2.env = dict(st.env)
+            s2.env[gens[0].target.id] = kc
+            heap_before = dict(s2.heap)
+            elt = eng.eval(e.value, s2)
+            if any(not z3.eq(s2.heap[k], heap_before.get(k, s2.heap[k])) for k in s2.heap):
+                raise Unsupported('comprehension element with side effects')
+            rk = KDict(dk.key, elt.kind)
+            ro = DictOps(rk)
+            d = it.term
+            kv = z3.Const(fresh_name('cq'), dk.key.sort())
+            vals = z3.Const(fresh_name('cvals'), z3.ArraySort(dk.key.sort(), elt.kind.sort()))
+            eng.fact(st, Vm.forall([kv], z3.Implies(di.contains(d, kv), z3.Select(vals, kv) == z3.substitute(elt.term, (kc.term, kv))),
+                                   patterns=[z3.Select(vals, kv)]))
+            return V(rk, ro.mk(di.n(d), di.keys(d), di.idx(d), vals))
     raise Unsupported(f'{kind} comprehension: {ast.unparse(e)}')
 
 
@@ -642,9 +671,49 @@ def fsum(eng, elem_kind):
     return eng.uf_cache[key]
 
 
+def _source_patterns(j, term, limit=2):
+    """Smallest sub-terms of `term` of the form f(.., j, ..) (select / accessor / function application with the bound
+    variable as a direct argument): usable as E-matching triggers."""
+    out, seen, stack = [], set(), [term]
+    while stack:
+        t = stack.pop()
+        if t.get_id() in seen or not z3.is_app(t):
+            continue
+        seen.add(t.get_id())
+        kids = t.children()
+        if any(z3.eq(k, j) for k in kids) and t.decl().kind() in (z3.Z3_OP_SELECT, z3.Z3_OP_UNINTERPRETED, z3.Z3_OP_DT_ACCESSOR):
+            out.append(t)
+        stack.extend(kids)
+    return out[:limit]
+
+
+def as_list(eng, st, x):
+    """List of the elements of an iterable value (dict view, zip, range, ...) in iteration order."""
+    if isinstance(x.kind, KList):
+        return x
+    n, at = eng.iter_sequence(x, st)
+    j = z3.Int(fresh_name('lj'))
+    eng.push_binder([j], z3.And(j >= 0, j < n))
+    try:
+        elt = at(j)
+    finally:
+        eng.pop_binder()
+    res = eng.fresh(KList(elt.kind), 'aslist')
+    lo = ListOps(res.kind)
+    eng.fact(st, lo.len(res.term) == z3.If(n > 0, n, 0))
+    body = z3.Implies(z3.And(j >= 0, j < n), lo.at(res.term, j) == elt.term)
+    eng.fact(st, Vm.forall([j], body, patterns=[lo.at(res.term, j)]))
+    # the same fact, triggered by the source element (so that statements about the source reach the list)
+    for p in _source_patterns(j, elt.term):
+        eng.fact(st, Vm.forall([j], body, patterns=[p]))
+    return res
+
+
 @builtin('sum')
 def _sum(eng, st, args, kwargs):
     (x,) = args
+    if not isinstance(x.kind, KList) and x.meta is not None and hasattr(x.meta, 'iter_sequence'):
+        x = as_list(eng, st, x)
     if isinstance(x.kind, KList) and x.kind.elem in (KInt, KReal):
         # left fold from 0 (S4) as an uninterpreted function of the sequence + unfolding axioms
         f = fsum(eng, x.kind.elem)
@@ -931,3 +1000,28 @@ def _zip(eng, st, args, kwargs):
     if not args:
         raise Unsupported('zip()')
     return V(KFn, z3.IntVal(0), meta=ZipV(list(args)))
+
+
+@builtin('sorted')
+def _sorted(eng, st, args, kwargs):
+    """sorted(xs, key=..., reverse=...): a permutation of xs.  The ORDER is not modelled (nothing proved here
+    depends on it; ordering statements are decided by bounded checks) -- only that every element of the result is an
+    element of the input at some position and vice versa, and that the length is kept."""
+    (x,) = args
+    xs = as_list(eng, st, x)
+    lo = ListOps(xs.kind)
+    n = lo.len(xs.term)
+    res = eng.fresh(xs.kind, 'sorted')
+    I = z3.IntSort()
+    p = z3.Function(fresh_name('perm'), I, I)
+    q = z3.Function(fresh_name('perminv'), I, I)
+    j = z3.Int(fresh_name('sj'))
+    eng.fact(st, lo.len(res.term) == n)
+    eng.fact(st, Vm.forall([j], z3.Implies(z3.And(j >= 0, j < n),
+                                           z3.And(p(j) >= 0, p(j) < n, lo.at(res.term, j) == lo.at(xs.term, p(j)), q(p(j)) == j)),
+                           patterns=[lo.at(res.term, j)]))
+    eng.fact(st, Vm.forall([j], z3.Implies(z3.And(j >= 0, j < n),
+                                           z3.And(q(j) >= 0, q(j) < n, lo.at(xs.term, j) == lo.at(res.term, q(j)), p(q(j)) == j)),
+                           patterns=[lo.at(xs.term, j)]))
+    eng.assumptions.add('sorted(xs, ...) is modelled as a permutation of xs (its order is not modelled)')
+    return res
